@@ -197,14 +197,44 @@ Print Assumptions C14_preserved_partial.
    members correspond one for one, in order, to the source's members -- each a
    copy with the same name, python name, description, deprecation reason,
    default, resolver, subscription resolver and directives (enum values: the
-   same value), and argument by argument the same for the arguments of fields. *)
+   same value), and argument by argument the same for the arguments of fields.
+   [type_linked]: the type reference of every member / argument of the clone
+   has the list / non-null wrappers of its source's and refers to the type
+   registered in the clone under the name of the type the source refers to
+   (or is the very same reference: the specified scalars are shared).
+   [IK]: the interface list of an object type / the member list of a union of
+   the clone is the source's ONE FOR ONE and in order, each entry replaced by
+   the type of the same name, every entry registered in the clone (healing a
+   clone of a closed schema drops no interface); for the other kinds the list
+   is untouched.
+   [dir_cloned]: every directive of the source is registered in the clone
+   under its name as a new object with the same name, description and
+   locations, whose arguments are copies of the source's one for one (same
+   attributes, linked type references).
+   Structure (for a schema with at least one non-specified type): the clone is
+   closed; its registry has the keys, in the order, of the registry
+   Schema(...) builds from the source's types; its directive registry the
+   source's keys in order; its roots are the types registered under the names
+   of the source's roots; its implementations index is the one computed from
+   its own registry and its possible-types cache starts empty. *)
 Theorem C14_clone_preserved : forall fuel m s m' s',
   fresh_ok m -> builtins_ok m -> closed m s -> wf_schema m s -> wf_builtins s ->
   clone fuel m s = Ok (m', s') ->
   (fresh_ok m' /\ wf_reg m' (s_types s') /\
    forall n o, In (n, o) (s_types s') -> is_builtin o = false -> exists t, In (n, t) (s_types s) /\ is_builtin t = false) /\
-  forall n t, In (n, t) (s_types s) -> is_builtin t = false ->
-    exists t', alookup n (s_types s') = Some t' /\ type_cloned m' n t t' /\ type_linked (s_types s') m' t t'.
+  (forall n t, In (n, t) (s_types s) -> is_builtin t = false ->
+    exists t', alookup n (s_types s') = Some t' /\ type_cloned m' n t t' /\ type_linked (s_types s') m' t t' /\
+      forall k d ms ifs r ds, mget m t = Some (OType n k d ms ifs r ds) -> IK (s_types s') m' t' ifs) /\
+  (forall n d, In (n, d) (s_dirs s) ->
+    exists d', alookup n (s_dirs s') = Some d' /\ dir_cloned (s_types s') m' d d') /\
+  ((exists n o, In (n, o) (s_types s) /\ is_builtin o = false) ->
+   closed m' s' /\
+   (forall s0, build fuel m (s_query s) (s_mut s) (s_sub s) (map snd (s_dirs s)) (map snd (s_types s)) = Ok s0 ->
+      map fst (s_types s') = map fst (s_types s0)) /\
+   map fst (s_dirs s') = map fst (s_dirs s) /\
+   s_query s' = reroot m (s_types s') (s_query s) /\ s_mut s' = reroot m (s_types s') (s_mut s) /\
+   s_sub s' = reroot m (s_types s') (s_sub s) /\
+   s_impls s' = fold_left (impls_of_type m') (s_types s') [] /\ s_poss s' = []).
 Proof. exact clone_preserved_core. Qed.
 Print Assumptions C14_clone_preserved.
 
